@@ -356,13 +356,23 @@ class Engine:
             return
         self.uf_cache[ck] = True
         r = z3.Int(fresh_name('hr'))
-        body = self.ref_wf(st, z3.Select(arr, r), kind, nxt)
+        full = self.ref_wf(st, z3.Select(arr, r), kind, nxt)
+        # conformance to the declared class holds for every cell, also for cells of objects allocated
+        # later (prophecy cells used by callee contracts); the allocation bound only for existing objects
+        conf = z3.And(*[c for c in full.children()[2:]], z3.Select(arr, r) >= 0) if full.num_args() > 2 else (z3.Select(arr, r) >= 0)
+        self.fact(st, Vm.forall([r], conf, patterns=[z3.Select(arr, r)], tag='conf_')) if st is not None else \
+            self.facts.append(Vm.forall([r], conf, patterns=[z3.Select(arr, r)], tag='conf_'))
+        body = z3.Select(arr, r) < nxt
         if key == 'Future.will_be':
             # type invariant: the value a Future stands for is a (non-null) tensor
-            body = z3.And(body, z3.Implies(self.isinstance_term(st or self.init_state, V(KRef(None), r), 'Future')
-                                           if (st is not None or getattr(self, 'init_state', None) is not None) else z3.BoolVal(True),
-                                           z3.Select(arr, r) != 0))
-        f = Vm.forall([r], body, patterns=[z3.Select(arr, r)])
+            nn = z3.Implies(self.isinstance_term(st or self.init_state, V(KRef(None), r), 'Future')
+                            if (st is not None or getattr(self, 'init_state', None) is not None) else z3.BoolVal(True),
+                            z3.Select(arr, r) != 0)
+            (self.fact(st, Vm.forall([r], nn, patterns=[z3.Select(arr, r)], tag='nn_')) if st is not None
+             else self.facts.append(Vm.forall([r], nn, patterns=[z3.Select(arr, r)], tag='nn_')))
+        # only cells of objects allocated when the array came into being: cells beyond are used as
+        # prophecy for objects allocated later (callee contracts) and must stay unconstrained
+        f = Vm.forall([r], z3.Implies(z3.And(r > 0, r < nxt), body), patterns=[z3.Select(arr, r)])
         if st is None:
             self.facts.append(f)
         else:
@@ -2499,6 +2509,13 @@ class Engine:
                     continue      # unproved clauses are never assumed at call sites
                 r = self.eval_spec(cl.node, st, pre, result=res)
                 self.fact(st, self.truth(r))
+            # heap closedness for what the callee allocated: futures created by the callee stand for
+            # tensors that exist when it returns (prophecy cells of Future.will_be in [pre.nxt, post.nxt))
+            if 'Future.will_be' in st.heap and not z3.eq(pre.nxt, st.nxt):
+                wb = st.heap['Future.will_be']
+                rr = z3.Int(fresh_name('cr'))
+                self.fact(st, Vm.forall([rr], z3.Implies(z3.And(rr >= pre.nxt, rr < st.nxt), z3.Select(wb, rr) < st.nxt),
+                                        patterns=[z3.Select(wb, rr)], tag='callee_closed_'))
             return res
         finally:
             self.frames.pop()
@@ -2550,6 +2567,12 @@ class Engine:
         nx = z3.Int(fresh_name('alloc'))
         self.fact(st, nx >= st.nxt)
         st.nxt = nx
+        # arrays replaced wholesale ('*.field'): the callee leaves the heap closed
+        for m in c.modifies:
+            if m.startswith('*.'):
+                for (cl, f), k in FIELDS.items():
+                    if f == m[2:] and f'{cl}.{f}' in st.heap:
+                        self.heap_closed(st, f'{cl}.{f}', st.heap[f'{cl}.{f}'], k, st.nxt)
 
     def construct(self, cname, args, kwargs, st) -> V:
         b = self.B.construct(self, st, cname, args, kwargs)
